@@ -171,6 +171,7 @@ func (r *vcfsRun) save(kind string) bool {
 	if r.dead {
 		return false
 	}
+	r.settle()
 	r.log(vcfsEvent{"ev": "savecall", "kind": kind})
 	var txt string
 	var err error
@@ -179,6 +180,9 @@ func (r *vcfsRun) save(kind string) bool {
 			if e := r.fs.Flush("", true); e != nil {
 				// an asynchronous flush reports no write errors; anything else is logged
 				r.log(vcfsEvent{"ev": "flush", "kind": "flushall", "ok": false})
+			}
+			if r.hold != nil {
+				r.hold.releaseAll() // the save below waits for these writes
 			}
 		}
 		r.keep.mu.Lock()
@@ -348,7 +352,12 @@ func vcfsRunStore(scn vcfsScenario, failK int) (events []vcfsEvent, nputs int) {
 	for i := 0; i < scn.Saves-1 && total > 1; i++ {
 		saveAt[1+r.rng.Intn(total-1)] = true
 	}
+	if scn.Hold {
+		r.hold = &vcfsHold{}
+		r.keep.gate = r.hold.gate
+	}
 	doSave := func() {
+		r.settle()
 		kind := kinds[r.rng.Intn(len(kinds))]
 		if !r.save(kind) && !r.dead {
 			// "the buffered data stays intact and readable, and a later save can still succeed"
@@ -364,6 +373,9 @@ func vcfsRunStore(scn vcfsScenario, failK int) (events []vcfsEvent, nputs int) {
 	step := func(op vcfsOp) {
 		n := len(r.events)
 		r.do(op)
+		if op.Op != "flushnow" {
+			r.settle()
+		}
 		if len(r.events) == n {
 			return
 		}
